@@ -107,6 +107,13 @@ theorem isLive_eq_of_count2 {f f' : Forest} {A B : List Nat}
   rw [← List.count_eq_zero] at hA hB
   omega
 
+theorem below_of_count_le {f f' : Forest} (w : f.W) (hn : f.next ≤ f'.next)
+    (h : ∀ a, f'.allHandles.count a ≤ f.allHandles.count a) : ∀ x ∈ f'.allHandles, x < f'.next := by
+  intro x hx
+  have h1 := List.count_pos_iff.2 hx
+  have h2 := h x
+  exact Nat.lt_of_lt_of_le (w.below x (List.count_pos_iff.1 (by omega))) hn
+
 /-- Non-root replacement at forest level: the generic facts. -/
 theorem replaceRoots_spec {f : Forest} (w : f.W) {h : Nat} {t : HTree} (F : HTree → List HTree)
     (hg : f.get? h = some t) (hr : f.isRoot h = false)
@@ -115,7 +122,7 @@ theorem replaceRoots_spec {f : Forest} (w : f.W) {h : Nat} {t : HTree} (F : HTre
     (∀ a, f'.allHandles.count a + (handles t).count a =
         f.allHandles.count a + (handlesList (F t)).count a) ∧
     leafOkList f'.roots = true ∧
-    (f'.allHandles.Nodup → Frame f f' (handles t ++ handlesList (F t)) (handles t ++ handlesList (F t))) := by
+    (f'.W → Frame f f' (handles t ++ handlesList (F t))) := by
   intro f'
   have hroots : f'.roots = replaceKids h F f.roots := map_replaceBelow_eq h F f.roots hr
   have hcount : ∀ a, f'.allHandles.count a + (handles t).count a =
@@ -126,9 +133,8 @@ theorem replaceRoots_spec {f : Forest} (w : f.W) {h : Nat} {t : HTree} (F : HTre
     exact replaceKids_count h F f.roots t w.nodup hg a
   refine ⟨hcount, ?_, ?_⟩
   · rw [hroots]; exact leafOkList_replaceKids h F hF f.roots w.leaves
-  · intro hn'
-    have w' : f'.W := ⟨hn', by rw [hroots]; exact leafOkList_replaceKids h F hF f.roots w.leaves⟩
-    refine ⟨?_, ?_, ?_, rfl, rfl⟩
+  · intro w'
+    refine ⟨?_, ?_, rfl, rfl, Nat.le_refl _⟩
     · intro x hx
       rw [List.mem_append, not_or] at hx
       cases hxr : f.isRoot x with
@@ -144,19 +150,23 @@ theorem replaceRoots_spec {f : Forest} (w : f.W) {h : Nat} {t : HTree} (F : HTre
         exact replaceKids_parent h x 0 F f.roots t w.nodup hg hx.1 hx.2
     · intro x hx
       rw [List.mem_append, not_or] at hx
-      exact isLive_eq_of_count2 hcount hx.1 hx.2
-    · intro x hx
-      rw [List.mem_append, not_or] at hx
-      unfold value? get?
-      rw [hroots]
-      exact replaceKids_value h x F f.roots t w.nodup hg hx.1 hx.2
+      have : f'.value? x = f.value? x := by
+        unfold value? get?
+        rw [hroots]
+        exact replaceKids_value h x F f.roots t w.nodup hg hx.1 hx.2
+      rw [this]
+
+theorem W_of_count_le {f f' : Forest} (w : f.W) (hn : f.next ≤ f'.next)
+    (hc : ∀ a, f'.allHandles.count a ≤ f.allHandles.count a) (hl : leafOkList f'.roots = true) :
+    f'.W :=
+  ⟨nodup_of_count_le w.nodup hc, hl, below_of_count_le w hn hc⟩
 
 /-- `cut`: the subtree is returned, the rest satisfies the invariant, everything outside the
     subtree keeps value and parent. -/
 theorem cut_spec {f : Forest} (w : f.W) {h : Nat} {t : HTree} (hg : f.get? h = some t) :
     (f.cut h).2 = some t ∧ (f.cut h).1.W ∧
     (∀ a, (f.cut h).1.allHandles.count a + (handles t).count a = f.allHandles.count a) ∧
-    Frame f (f.cut h).1 (handles t) (handles t) ∧ leafOk t = true := by
+    Frame f (f.cut h).1 (handles t) ∧ leafOk t = true := by
   have hlt : leafOk t = true := findList?_leafOk h f.roots t w.leaves hg
   cases hr : f.isRoot h with
   | true =>
@@ -164,25 +174,31 @@ theorem cut_spec {f : Forest} (w : f.W) {h : Nat} {t : HTree} (hg : f.get? h = s
       unfold cut; rw [hg, hr]; rfl
     rw [hc]
     obtain ⟨i1, i2, i3, i4⟩ := rootsFilter h f.roots t w.nodup hr hg
-    refine ⟨rfl, ⟨?_, (i4 w.leaves).1⟩, i1, ⟨?_, ?_, ?_, rfl, rfl⟩, hlt⟩
-    · show (handlesList (f.roots.filter (fun r => r.handle != h))).Nodup
-      exact nodup_of_count_le w.nodup (fun a => by have := i1 a; unfold allHandles; omega)
+    have w' : Forest.W { f with roots := f.roots.filter (fun r => r.handle != h) } :=
+      W_of_count_le w (Nat.le_refl _) (fun a => by
+        have := i1 a
+        show (handlesList (f.roots.filter (fun r => r.handle != h))).count a ≤ (handlesList f.roots).count a
+        omega)
+        (i4 w.leaves).1
+    refine ⟨rfl, w', i1, ⟨?_, ?_, rfl, rfl, Nat.le_refl _⟩, hlt⟩
     · intro x hx; rw [parent?_eq, parent?_eq]; exact i2 x hx
     · intro x hx
-      exact isLive_eq_of_count (f' := { f with roots := f.roots.filter (fun r => r.handle != h) }) w i1 hx
-    · intro x hx; exact i3 x hx
+      have : Forest.value? { f with roots := f.roots.filter (fun r => r.handle != h) } x =
+          f.value? x := i3 x hx
+      rw [this]
   | false =>
     have hc : f.cut h = ({ f with roots := f.roots.map (replaceBelow h (fun _ => [])) }, some t) := by
       unfold cut; rw [hg, hr]; rfl
     rw [hc]
     obtain ⟨j1, j2, j3⟩ := replaceRoots_spec w (fun _ => []) hg hr (fun _ _ => rfl)
     simp only [handlesList, List.count_nil, Nat.add_zero, List.append_nil] at j1 j3
-    have hn' : (handlesList (f.roots.map (replaceBelow h (fun _ => [])))).Nodup :=
-      nodup_of_count_le w.nodup (fun a => by
+    have w' : Forest.W { f with roots := f.roots.map (replaceBelow h (fun _ => [])) } :=
+      W_of_count_le w (Nat.le_refl _) (fun a => by
         have : (handlesList (f.roots.map (replaceBelow h (fun _ => [])))).count a +
           (handles t).count a = (handlesList f.roots).count a := j1 a
-        unfold allHandles; omega)
-    exact ⟨rfl, ⟨hn', j2⟩, j1, j3 hn', hlt⟩
+        show (handlesList (f.roots.map (replaceBelow h (fun _ => [])))).count a ≤ (handlesList f.roots).count a
+        omega) j2
+    exact ⟨rfl, w', j1, j3 w', hlt⟩
 
 theorem cut_dead {f : Forest} {h : Nat} (hg : f.get? h = none) : f.cut h = (f, none) := by
   unfold cut; rw [hg]
@@ -192,16 +208,16 @@ theorem spliceOut_spec {f : Forest} (w : f.W) {h : Nat} {t : HTree} (hg : f.get?
     (hk : f.isRoot h = true → t.kids.length ≤ 1) :
     (f.spliceOut h).W ∧
     (∀ a, (f.spliceOut h).allHandles.count a + [h].count a = f.allHandles.count a) ∧
-    Frame f (f.spliceOut h) (handles t) (handles t) := by
+    Frame f (f.spliceOut h) (handles t) := by
   have hlt : leafOk t = true := findList?_leafOk h f.roots t w.leaves hg
   have hth : t.handle = h := get?_handle hg
   have hlk : leafOkList t.kids = true := by
     cases t with | node a v ks => simp only [leafOk, Bool.and_eq_true] at hlt; exact hlt.2
-  unfold spliceOut
-  rw [hg]
   cases hr : f.isRoot h with
   | true =>
-    simp only [if_true, hk hr]
+    have hs : f.spliceOut h = { f with roots := f.roots.filter (fun r => r.handle != h) ++ t.kids } := by
+      unfold spliceOut; rw [hg]; simp only [hr, if_true, hk hr]
+    rw [hs]
     obtain ⟨i1, i2, i3, i4⟩ := rootsFilter h f.roots t w.nodup hr hg
     have hcount : ∀ a, (handlesList (f.roots.filter (fun r => r.handle != h) ++ t.kids)).count a +
         [h].count a = f.allHandles.count a := by
@@ -211,10 +227,13 @@ theorem spliceOut_spec {f : Forest} (w : f.W) {h : Nat} {t : HTree} (hg : f.get?
       simp only [List.count_cons, List.count_nil] at this ⊢
       rw [handlesList_append, List.count_append]
       unfold allHandles; omega
-    refine ⟨⟨?_, ?_⟩, hcount, ⟨?_, ?_, ?_, rfl, rfl⟩⟩
-    · exact nodup_of_count_le w.nodup (fun a => by have := hcount a; unfold allHandles at *; simp only; omega)
-    · show leafOkList (_ ++ _) = true
-      rw [leafOkList_append, (i4 w.leaves).1, hlk]; rfl
+    have w' : Forest.W { f with roots := f.roots.filter (fun r => r.handle != h) ++ t.kids } :=
+      W_of_count_le w (Nat.le_refl _) (fun a => by
+        have := hcount a
+        show (handlesList (f.roots.filter (fun r => r.handle != h) ++ t.kids)).count a ≤ (handlesList f.roots).count a
+        unfold allHandles at this; omega)
+        (by show leafOkList (_ ++ _) = true; rw [leafOkList_append, (i4 w.leaves).1, hlk]; rfl)
+    refine ⟨w', hcount, ⟨?_, ?_, rfl, rfl, Nat.le_refl _⟩⟩
     · intro x hx
       rw [parent?_eq, parent?_eq]
       simp only [List.findSome?_append]
@@ -224,21 +243,22 @@ theorem spliceOut_spec {f : Forest} (w : f.W) {h : Nat} {t : HTree} (hg : f.get?
       rw [rootsParent_none_of_not_mem this]
       cases List.findSome? (parentBelow x) f.roots <;> rfl
     · intro x hx
-      have hx' : x ∉ [h] := by
-        intro e; apply hx; rw [handles_eq, hth]; simp only [List.mem_singleton] at e; simp [e]
-      exact isLive_eq_of_count (f' := { f with roots := f.roots.filter (fun r => r.handle != h) ++ t.kids }) w hcount hx'
-    · intro x hx
-      have : x ∉ handlesList t.kids := by
+      have hxk : x ∉ handlesList t.kids := by
         intro h'; apply hx; rw [handles_eq]; exact List.mem_cons_of_mem _ h'
-      show (findList? x (_ ++ _)).map HTree.value = _
-      rw [findList?_append]
-      have h3 := i3 x hx
-      unfold value? get?
-      cases h1 : findList? x (f.roots.filter (fun r => r.handle != h)) with
-      | some b => rw [h1] at h3; exact h3
-      | none => rw [h1] at h3; rw [(findList?_none_iff _ _).2 this]; exact h3
+      have : Forest.value? { f with roots := f.roots.filter (fun r => r.handle != h) ++ t.kids } x =
+          f.value? x := by
+        show (findList? x (_ ++ _)).map HTree.value = _
+        rw [findList?_append]
+        have h3 := i3 x hx
+        unfold value? get?
+        cases h1 : findList? x (f.roots.filter (fun r => r.handle != h)) with
+        | some b => rw [h1] at h3; exact h3
+        | none => rw [h1] at h3; rw [(findList?_none_iff _ _).2 hxk]; exact h3
+      rw [this]
   | false =>
-    simp only [Bool.false_eq_true, if_false]
+    have hs : f.spliceOut h = { f with roots := f.roots.map (replaceBelow h (fun n => n.kids)) } := by
+      unfold spliceOut; rw [hg]; simp only [hr, Bool.false_eq_true, if_false]
+    rw [hs]
     obtain ⟨j1, j2, j3⟩ := replaceRoots_spec w (fun n => n.kids) hg hr (fun k hk' => by
       cases k with | node a v ks => simp only [leafOk, Bool.and_eq_true] at hk'; exact hk'.2)
     have hcount : ∀ a, (handlesList (f.roots.map (replaceBelow h (fun n => n.kids)))).count a +
@@ -248,14 +268,17 @@ theorem spliceOut_spec {f : Forest} (w : f.W) {h : Nat} {t : HTree} (hg : f.get?
       rw [handles_eq, hth] at this
       simp only [List.count_cons, List.count_nil] at this ⊢
       unfold allHandles at this; unfold allHandles; simp only at this; omega
-    have hn' : (handlesList (f.roots.map (replaceBelow h (fun n => n.kids)))).Nodup :=
-      nodup_of_count_le w.nodup (fun a => by have := hcount a; unfold allHandles at *; omega)
+    have w' : Forest.W { f with roots := f.roots.map (replaceBelow h (fun n => n.kids)) } :=
+      W_of_count_le w (Nat.le_refl _) (fun a => by
+        have := hcount a
+        show (handlesList (f.roots.map (replaceBelow h (fun n => n.kids)))).count a ≤ (handlesList f.roots).count a
+        unfold allHandles at this; omega) j2
     have hsub : ∀ x ∈ handles t ++ handlesList t.kids, x ∈ handles t := by
       intro x hx
       rcases List.mem_append.1 hx with h' | h'
       · exact h'
       · rw [handles_eq]; exact List.mem_cons_of_mem _ h'
-    exact ⟨⟨hn', j2⟩, hcount, (j3 hn').mono hsub hsub⟩
+    exact ⟨w', hcount, (j3 w').mono hsub⟩
 
 theorem spliceOut_dead {f : Forest} {h : Nat} (hg : f.get? h = none) : f.spliceOut h = f := by
   unfold spliceOut; rw [hg]
